@@ -10,12 +10,20 @@ VARIABLES chunk, done
 GChunks == {c \in Chunks(Size) : Only = {} \/ c[1] \in Only} \cup (IF NCombo > 0 THEN {<<"combo", "-", Size>>} ELSE {})
 Vec(I) == [inst |-> I, verdict |-> Verdict(I), schema |-> Schema(I), judgeSchema |-> SchemaJudged(I), judgeVerdict |-> JudgeVerdict(I),
            cyclic |-> (IncludeCycle(I) \/ ImportCycle(I) \/ DefCycle(I)), defects |-> SetToSeq(Defects(I))]
-PickN(S, n) == IF n = 0 \/ Cardinality(S) <= n THEN S ELSE {RandomElement(S) : i \in 1..n}
+\* (SS is bound once: the set is built a single time, not per draw)
+PickN(S, n) == UNION {IF n = 0 \/ Cardinality(SS) <= n THEN SS ELSE {RandomElement(SS) : i \in 1..n} : SS \in {S}}
+\* all of the chunk, or (NSample > 0) seeded samples of it; the subimport and include families are always taken whole
+\* (few of their instances carry a given dependency shape: sampling 40 of them left single-instance margins)
+InstancesOf(c) == IF c[1] = "combo" THEN Combos(NCombo, AllPlaces(Size))
+                  ELSE IF NSample = 0 \/ c[1] \in {"subimport", "include"} THEN Chunk(c)
+                  ELSE IF c[1] \in Kinds /\ c[2] = "twin" THEN SampleTwins(c[1], 3 * NSample)
+                  ELSE IF c[1] \in Kinds THEN SampleDefs(c[1], c[2], AllPlaces(c[3]), NSample)
+                  ELSE PickN(Chunk(c), NSample)
 FileOf(c) == "cvec_" \o c[1] \o "_" \o c[2] \o ".ndjson"
 \* (the mechanism's variables are not used by the generator)
 GInit == /\ chunk \in GChunks /\ done = FALSE
          /\ inst = Base /\ phase = "pick" /\ todo = {} /\ order = << >> /\ pos = 1 /\ trees = << >>
          /\ out = [verdict |-> "none", schema |-> {}]
 GNext == /\ ~done /\ done' = TRUE /\ UNCHANGED <<chunk, pvars>>
-         /\ ndJsonSerialize(FileOf(chunk), SetToSeq({Vec(I) : I \in (IF chunk[1] = "combo" THEN Combos(NCombo, AllPlaces(Size)) ELSE PickN(Chunk(chunk), IF chunk[2] = "twin" THEN 3 * NSample ELSE IF chunk[1] = "subimport" THEN 0 ELSE NSample))}))
+         /\ ndJsonSerialize(FileOf(chunk), SetToSeq({Vec(I) : I \in InstancesOf(chunk)}))
 =============================================================================
